@@ -640,6 +640,29 @@ func runCase(h *harnessState, w *world, caseNo int) {
 		}
 		deliver(batch, "redeliver-all")
 	}
+	if tc.exotic && r.Chance(40) && r.TimeLeft() {
+		// directed at the rebuild path: a change WITHOUT previous ids (attached vacuously, not reachable
+		// from the root) by an account that may not write, next to a change that forces
+		// rebuildFromStorage (its snapshot id is not in the tree); variants: the unreachable change has a
+		// child in the batch, the forcing change is attachable or not
+		x := tc.pickAuthor()
+		if r.Chance(60) {
+			x = w.byName["z"]
+		}
+		noPrev := tc.buildChange(x, tc.pickRecord(0, true), nil, tc.rootId)
+		fake := realCid([]byte(fmt.Sprint("nosnap", tc.nextTs())))
+		force := tc.buildChange(x, tc.pickRecord(0, true), []string{fake}, fake)
+		batch := []*rawCh{noPrev, force}
+		if r.Chance(50) {
+			child := tc.buildChange(tc.pickAuthor(), tc.pickRecord(0, true), []string{noPrev.id}, tc.rootId)
+			batch = append(batch, child)
+		}
+		if r.Chance(30) {
+			batch[0], batch[1] = batch[1], batch[0]
+		}
+		r.Count("directed.noprev-with-rebuild")
+		deliver(batch, "noprev-rebuild")
+	}
 	// full validation later, possibly after the receiver learnt the rest of the ACL log
 	if r.Chance(60) || readdDirected {
 		if tc.recvK < n && (r.Chance(70) || readdDirected) {
